@@ -555,6 +555,13 @@ def _desugar_next_find(stmts):
             used_later = any(isinstance(n, ast.Name) and n.id == x for st in stmts[i + 2:] for n in ast.walk(st))
             bound = {n.id for n in ast.walk(g0.target) if isinstance(n, ast.Name)}
             clash = any(isinstance(n, ast.Name) and n.id in bound for st in stmts[i + 1:] for n in ast.walk(st))
+            if clash:
+                # comprehension variables do not leak: give the loop fresh names
+                k = next(_counter)
+                ren = _Rename({b: f"_{b}_nf{k}" for b in bound})
+                gen = ren.visit(_clone(gen))
+                g0 = gen.generators[0]
+                clash = False
             assign = ast.copy_location(ast.Assign(targets=[ast.Name(id=x, ctx=ast.Store())], value=gen.elt), s)
             if not clash and dflt.value is None and isinstance(nxt, ast.If) and not nxt.orelse and not used_later \
                     and isinstance(nxt.test, ast.Compare) and len(nxt.test.ops) == 1 and isinstance(nxt.test.ops[0], ast.IsNot) \
